@@ -16,8 +16,39 @@ TEMPOS = [0.5, 1, 1, 2, 3, 7.3, 120]
 
 # ------------------------------------------------------------- generation
 
+def scenario_busy_slowdown(tp):
+    """Directed template: a task on SystemClock is still running (holding
+    the library's lock) when the head task of a TempoClock falls due, and
+    before it returns it slows that clock down or sets its beats back: the
+    TempoClock, whose timed wait has expired meanwhile, must look at the
+    time again and keep sleeping until the new deadline."""
+    tempo = tp.choice([1, 2, 4])
+    d0 = tp.choice([0.5, 1, 0.75])                 # beats
+    start = d0 / tempo - tp.choice([0.05, 0.1, 0.2])
+    busy = tp.choice([0.3, 0.5, 0.8])
+    if tp.draw(2):
+        slow = ['tempo', 0, tempo * tp.choice([0.1, 0.25])]
+    else:
+        slow = ['beats', 0, -tp.choice([1, 2])]
+    tasks = [
+        {'clock': 't0', 'kind': tp.choice(['func', 'routine']),
+         'script': [{'ops': [], 'ret': None}]},
+        {'clock': tp.choice(['sys', 'sys', 'app']), 'kind': 'func',
+         'script': [{'ops': [['busy', busy], slow], 'ret': None}]},
+        {'clock': 't0', 'kind': 'func',
+         'script': [{'ops': [], 'ret': tp.choice([None, 0.25])}]}]
+    drv = [['sched', 0, d0], ['sched', 1, max(0.0, start)],
+           ['sched', 2, d0 + tp.choice([0, 0.5])], ['sleep', 4]]
+    knobs = C.gen_knobs(tp, fault_free_pm=500)
+    return {'knobs': knobs, 'tempos': [tempo], 'tasks': tasks,
+            'actors': [drv], 'responders': [],
+            'scenario': 'busy-slowdown'}
+
+
 def gen_case(tp, tier):
     big = tier == 'thorough'
+    if tp.draw(12) == 0:
+        return scenario_busy_slowdown(tp)
     knobs = C.gen_knobs(tp, max_steps=200000 if big else 30000)
     n_tempo = tp.choice([0, 0, 1, 1, 2, 3])
     tempos = [tp.choice(TEMPOS) for _ in range(n_tempo)]
@@ -35,6 +66,7 @@ def gen_case(tp, tier):
         'inject': tp.draw(3) == 0,
         'inf': tp.draw(8) == 0,
         'cmdperiod': tp.draw(6) == 0,
+        'busy': tp.draw(4) == 0,
         'readd': tp.draw(3) == 0,
     }
     tasks = []
@@ -100,6 +132,10 @@ def _gen_op(tp, feat, n_tasks, n_tempo, clocks, self_task, inner):
         return ['stop', tp.draw(n_tempo)]
     if feat.get('cmdperiod') and r == 5:
         return ['cmdperiod']
+    if inner and feat.get('busy') and r in (6, 7):
+        # a slow task: it keeps running (and holding the library's lock)
+        # while other clocks' deadlines pass
+        return ['busy', tp.choice([0.02, 0.1, 0.3, 0.6])]
     # a scheduling
     t = tp.draw(n_tasks)
     if inner and t == self_task:
@@ -254,6 +290,15 @@ class Model:
                         f'{exp["time"]} re-scheduled it at {time}, expected '
                         f'{want}')
             self.bump('resched-checked')
+        elif k.current.role == 'clock' and me not in self.in_body \
+                and task in self.taskid and call is None and time != INF:
+            # the clock's own loop queued a task that returned no number
+            # (or raised): it would be awakened again without being
+            # scheduled
+            self.viol.add(
+                'C08-1', f'{cname[0]}-requeued-without-return-value',
+                f'{cname} thread re-scheduled task {self.taskid[task]} at '
+                f'{time} although it returned no number')
         # sched ahead of a sleeping head?
         th = self.clock_thread.get(cname)
         if th is not None and th.state == K.COND and th.wake_at is not None:
@@ -458,7 +503,12 @@ def run_case(case, tape, ctx):
     k = w.kernel
     main = w.main
     viol = C.Violations()
-    m = Model(w, viol, knobs.get('fault_free', False))
+    # (tasks that take time hold the library's lock meanwhile: other tasks
+    # are legitimately late then, the exact-lateness oracle does not apply)
+    has_busy = 'busy' in repr(case['tasks']) + repr(case['responders'])
+    m = Model(w, viol, knobs.get('fault_free', False) and not has_busy)
+    if case.get('scenario'):
+        m.bump('scenario-' + case['scenario'])
 
     import sc3.base.clock as sclk
     import sc3.base.stream as sstm
@@ -493,7 +543,9 @@ def run_case(case, tape, ctx):
         me = k.current.idx
         if kind == 'nop':
             return
-        if kind == 'sleep':
+        if kind in ('sleep', 'busy'):
+            if kind == 'busy':
+                m.bump('busy-task')
             k.sleep(op[1])
             return
         if kind in ('sched', 'sched_abs'):
